@@ -180,10 +180,12 @@ func (r *c16Run) finish() {
 		}
 		a.mu.Unlock()
 	}
+	// let pending Adds complete successfully: a failed one would leave a nil entry that a terminate
+	// still queued in some mailbox could hit (nil dereference in a mailbox goroutine ends the process)
 	for k := range r.actors {
 		if r.phase[k] == phAdding {
 			select {
-			case r.actors[k].proceed <- false:
+			case r.actors[k].proceed <- true:
 			default:
 			}
 		}
